@@ -486,6 +486,14 @@ func HistoryTree.Close
 func AuditPath.Get
   props C12
 
+// C13, the wire form of an audit path: the entry at position (index, height) travels under the
+// key "<index>|<height>" in decimal (what ParseAuditPath splits at '|' and reads back with Atoi)
+func AuditPath.Serialize
+  props C13
+  ensures result != nil && fresh(result)
+  ensures C13/keys-are-index-bar-height: forall q [10]byte :: has(p, q) ==> has(result, posStr(u64of(abytes(q, 0, 8)), u16of(abytes(q, 8, 10))))
+  loop 1 invariant s != nil && fresh(s)
+  loop 1 invariant C13/keys-so-far: forall q [10]byte :: visited(q) ==> has(s, posStr(u64of(abytes(q, 0, 8)), u16of(abytes(q, 8, 10))))
 func ParseAuditPath
   props C12 C13
   ensures result != nil
